@@ -239,7 +239,10 @@ public:
             std::stop_source stps;
             using AwtRetVal = std::decay_t<awaiter_return_value<Awt> >;
             auto worker = worker_coro<false>(stps.get_token());
-            stack_storage storage(_elide_state);
+            //start() can be called from multiple threads: each call works with its own copy
+            //of the learned frame size, the shared value is accessed atomically
+            std::size_t elide_state = _elide_state.load(std::memory_order_relaxed);
+            stack_storage storage(elide_state);
             storage = alloca(storage);
 
             if constexpr(std::is_void_v<AwtRetVal>) {
@@ -254,6 +257,7 @@ public:
                 };
 
                 callback_await_alloc<stack_storage,Awt &>(storage, fn, awt);
+                _elide_state.store(elide_state, std::memory_order_relaxed);
 
                 coro_queue::install_queue_and_call([&]{
                     worker.detach();
@@ -272,6 +276,7 @@ public:
                 };
 
                 callback_await_alloc<stack_storage,Awt &>(storage, fn, awt);
+                _elide_state.store(elide_state, std::memory_order_relaxed);
 
                 coro_queue::install_queue_and_call([&]{
                      worker.detach();
@@ -356,7 +361,7 @@ protected:
     std::mutex _mx;
     std::condition_variable _cond;
     std::optional<GlobState> _glob_state;
-    std::size_t _elide_state = 0;
+    std::atomic<std::size_t> _elide_state = 0;
 
 
     static bool compare_item(const SchItem &a, const SchItem &b) {
